@@ -189,5 +189,14 @@ func init() {
 		Rule: "each run = one cluster with 1-4 policies x 1-3 rules drawn from small per-field alphabets ('*', x, -x, several -x, mixed -x,y, globs, */sub, res/sub, service accounts with empty parts), every policy bound to its own single endpoint so that the contacted stub names the chosen policy; 10-40 real HTTP requests (verb x group x resource/sub x name x non-resource path x user/groups through TokenReview) interleaved with up to 6 reloads (new or permuted list); the oracle is a reference matcher written from docs/en/design.md and the property text, evaluated on the stored (admitted) list; distinct = distinct trace hash; non-trivial = at least one request matched and one matched no policy",
 		Real: gwReal, Stub: gwStub, Assume: append([]string{"the deciding power for the rule semantics comes from seeded generation of (policy list, request) pairs inside running gateways; what the simulation adds is history independence and 'never forwarded when unmatched' observed at the system boundary", "inverted non-resource URLs and inverted service accounts are documented as unsupported and are not generated"}, gwAssume...),
 	})
+	reg(&Check{
+		ID:    "C15",
+		Title: "Removal: deleted clusters/endpoints get no traffic; in-flight requests are cut",
+		Batches: []Batch{
+			{World: "gw", Profile: "c15-removal", Quick: 150, Thor: 8000, PerProc: 1, FaultFree: true},
+		},
+		Rule: "each run = cluster alpha (endpoints e0,e1 behind verb-distinguished policies) and bystander cluster beta; 6-12 requests in drawn phases of their life (parked in TokenReview before the pick, held at the upstream before headers, mid-stream of a chunked long-running response with drawn progress), then one drawn removal (delete the cluster, remove e0, replace e0 by a new endpoint); afterwards: victims must end at the client within 2 simulated seconds without further stimulus, the removed endpoint's server must see the cancellation, new requests get 503 / never reach the removed endpoint, bystander streams receive their next chunk, probing of the removed endpoint stops and of the others continues; distinct = distinct trace hash; non-trivial = at least one request was in flight to what was removed",
+		Real: gwReal, Stub: gwStub, Assume: append([]string{"'promptly' is read as 2 simulated seconds; 'probing stops' as no probe later than one interval (5 s) plus 1.5 s after the removal"}, gwAssume...),
+	})
 	reg(&Check{ID: "SMOKE", Title: "debug", Batches: []Batch{{World: "gw", Profile: "smoke", Quick: 1, Thor: 1, PerProc: 1}}})
 }
